@@ -6,7 +6,7 @@ import (
 	"go/token"
 	"go/types"
 	"strings"
-	
+
 	"fqverif/fw"
 
 	"golang.org/x/tools/go/ssa"
@@ -24,7 +24,7 @@ import (
 func c06Sentinel(r *fw.Run, p *fw.Program, reach map[*ssa.Function]bool) {
 	ru := r.Rule("C06.sentinel", "an integer that is the sentinel -1 on some path (phi with a constant -1 edge) flows into an index / slice bound / make size (directly or through subtraction, non-positive offsets and copies) only where the dominating guards exclude the sentinel; decoder packages (format/..., pkg/decode, pkg/scalar, pkg/bitio, internal/bitiox) plus the recover machinery internal/recoverfn, which formats the recovered decode error that formats a recovered decode error", 1)
 	for _, fn := range p.FqFunctions() {
-		if pr := pkgRel(fn); !c06DecodePkg(pr) && pr != "internal/recoverfn" {
+		if pr := pkgRel(fn); (!c06DecodePkg(pr) && pr != "internal/recoverfn") || !linkedPackages(p)[fw.FnPkgPath(fn)] {
 			continue
 		}
 		var env *fw.PolyEnv
@@ -91,6 +91,34 @@ func c06Sentinel(r *fw.Run, p *fw.Program, reach map[*ssa.Function]bool) {
 						ru.Check(excluded, key, p.Rel(ref.Pos()), "sentinel excluded by a dominating test", "a variable that may still hold the sentinel -1 is used for "+sink+" without a dominating test excluding -1 (slice bounds / index out of range)")
 					}
 				}
+			}
+		}
+		// the same for the "not found" result of bytes/strings Index*/LastIndex*
+		cord := map[string]int{}
+		for _, ci := range fw.CallsIn(fn) {
+			call, ok := ci.(*ssa.Call)
+			if !ok || call.Common().StaticCallee() == nil || !c06IsIndexFn(call.Common().StaticCallee()) || call.Referrers() == nil {
+				continue
+			}
+			name := call.Common().StaticCallee().Pkg.Pkg.Name() + "." + call.Common().StaticCallee().Name()
+			for _, ref := range *call.Referrers() {
+				sink := c06SentinelReaches(ref, call, map[ssa.Instruction]bool{})
+				if sink == "" {
+					continue
+				}
+				if env == nil {
+					env = fw.NewPolyEnv(fn)
+				}
+				cp := env.Of(call)
+				excluded := false
+				for _, f := range env.Facts(ref.Block()) {
+					if f.Implies(fw.Cmp{P: cp, Rel: fw.GE}) || f.Implies(fw.Cmp{P: cp.Add(fw.PConst(1)), Rel: fw.NE}) {
+						excluded = true
+					}
+				}
+				cord[name]++
+				key := fmt.Sprintf("%s|%s#%d", fw.ShortFn(fn), name, cord[name])
+				ru.Check(excluded, key, p.Rel(ref.Pos()), "not-found result excluded by a dominating test", "the result of "+name+" (-1 when not found) is used for "+sink+" without a dominating test excluding -1 (slice bounds / index out of range)")
 			}
 		}
 	}
